@@ -45,7 +45,9 @@ def run(pid, tier):
         def special(s):
             b = bytes(s['chunks'][0])
             return b'#' in b or b'"' in b or b"'" in b or b.startswith((b' ', b'\t')) or b'\n ' in b or b'\n\t' in b
-        streams = [s for i, s in enumerate(streams) if len(s['chunks'][0]) <= 30 and ((special(s) and i % 5 == lib.seed() % 5) or i % 16 == lib.seed() % 16)]
+        def stale(s):       # a long number first: what it leaves behind in the buffer must not reach the next message
+            return bytes(s['chunks'][0]).startswith(b'ECHO 98765')
+        streams = [s for i, s in enumerate(streams) if len(s['chunks'][0]) <= 30 and ((special(s) and i % 5 == lib.seed() % 5) or i % 16 == lib.seed() % 16 or stale(s))]
     scen, refidx, meta = [], [], []
     for s in streams:
         st = s['chunks'][0]
